@@ -417,7 +417,7 @@ def shapes(tier):
     for w in (3,) if not th else (3, 4):
         jobs.append(('rsa_construct', dict(w=w)))
     jobs.append(('rsa_construct', dict(w=3, tie_n=False)))
-    for w in (5,) if not th else (5, 6):
+    for w in (5,):      # w = 6: z3 answers unknown on the assumptions already (measured): outside
         jobs.append(('dsa_construct', dict(w=w, priv=True)))
         jobs.append(('dsa_construct', dict(w=w, priv=False)))
     if th:      # p below 2^3 only, thorough only: the symbolic-modulus power chain g^(p-1) mod p is slow (w = 4, 5: no answer in 450 s, measured)
@@ -429,7 +429,7 @@ def shapes(tier):
 BOUNDS = dict(ecc="5 NIST curves + Ed25519 + Ed448 + Curve25519 + Curve448; private scalars: every integer of up to order_bits + 8 bits and small negatives; "
               "points: P + i*p, i < 4, for every public key P of the abstract group; Montgomery x: every value of up to 8n + 3 bits",
               rsa="every tuple (n,e,d,p,q,u) with p, q below 2^3 (thorough 2^4) and the others below 2^(2w)",
-              dsa="every tuple (p,q,g,y,x) with p below 2^5 (thorough 2^6); ElGamal (thorough only): every tuple (p,g,y,x) below 2^3",
+              dsa="every tuple (p,q,g,y,x) with p below 2^5; ElGamal (thorough only): every tuple (p,g,y,x) below 2^3",
               outside=["generate() loops and FIPS 186-4 size margins on real sizes", "the probabilistic primality tests (replaced by the exact table at reduced width)",
                        "factor recovery from (n,e,d)", "the on-curve computation of the C code for all coordinates (abstract predicate; ec_new_point_c runs the real ec_ws_new_point on a list of concrete candidates incl. x = 0 / y = 0)", "ElGamal.construct (being added)",
                        "import formats (same constructors; decoding is C13)"])
